@@ -110,7 +110,7 @@ static void ProcessFile(char* FileName) {
                 ChkIO(FileName);
             }
 
-            if (ftell(SrcFile) + InpLen >= FileSize(SrcFile) - 1) {
+            if (ftell(SrcFile) + InpLen >= FileSize(SrcFile)) {
                 FormatError(FileName, getmessage(Num_FormatInvRecordLenMsg));
             }
 
